@@ -78,7 +78,7 @@ BoundedWork(i, spans) ==
 AllowedResp(i, r) ==
   /\ r.status \in {"ok", "notfound", "reset"}
   /\ (r.status # "ok" => r.heights = <<>>)
-  /\ CASE i.kind = "range" /\ i.origin = 0 /\ i.amount = 1 -> r.status = "ok" /\ r.heights = <<i.head>>   \* the head request
+  /\ CASE i.kind = "range" /\ i.origin = 0 /\ i.amount # 0 -> r.status = "ok" /\ r.heights = <<i.head>>   \* a head request: origin 0, whatever the amount
        [] i.kind = "range" /\ i.origin = 0 -> (r.status = "ok" => r.heights = <<i.head>>) /\ r.spans = <<>>
        [] i.kind = "range" -> (r.status = "ok" => ExactPrefix(i, r.heights)) /\ BoundedWork(i, r.spans)
        [] i.kind = "hash"  -> (i.hk = "known" => r.status = "ok" /\ r.heights = <<i.tail + 1>>) /\ (i.hk # "known" => r.status # "ok")
